@@ -322,6 +322,76 @@ for form, data in FORMS.items():
     if r[1].ksk_policy.ttl != 172800 or r[1].request_policy.num_bundles != 9:
         fail("config", f"configuration file ({form}) was not read as written")
 
+# ------------------------------------------------------------------ 3c. the trust-anchor exporter: the logged digest is that of the bytes now in the named file;
+#                     when the file could not be written (missing directory, a directory at the path, a write that fails half way) no digest of it is logged
+import argparse as _ap
+import builtins as _bi
+from kskm.tools.trustanchor import trustanchor as _trustanchor
+_ta_cfg = ceremony.make_config({"ksk_current": ceremony.ksk_def(KS["ksk_current"])}, {"normal": {i: {"publish": "ksk_current", "sign": "ksk_current"} for i in range(1, 10)}})
+TA_WROTE = re.compile(r"Wrote trust anchor to file (\S+) SHA-256 ([0-9a-f]{64}) WORDS (.*)$")
+
+
+class _FailingWrite:
+    """open() for one path: the file is truncated as usual, the first write stores half of the data and fails with ENOSPC"""
+    def __init__(self, path):
+        self.path, self.real = str(path), _bi.open
+
+    def __call__(self, name, mode="r", *a, **k):
+        fh = self.real(name, mode, *a, **k)
+        if str(name) != self.path or "w" not in mode:
+            return fh
+        real_write = fh.write
+
+        class W:
+            def __enter__(s_):
+                return s_
+            def __exit__(s_, *e):
+                fh.close()
+                return False
+            def write(s_, data):
+                real_write(data[: len(data) // 2])
+                fh.flush()
+                raise OSError(28, "No space left on device")
+            def __getattr__(s_, n):
+                return getattr(fh, n)
+        return W()
+
+
+for trial, (where, pre) in enumerate([("plain", None), ("plain", b"<old/>\n"), ("plain", b"<!-- longer -->" + b"y" * 50000), ("missing-directory", None), ("path-is-a-directory", None),
+                                      ("write-fails-half-way", b"<TrustAnchor>the previous anchor file</TrustAnchor>\n"), ("write-fails-half-way", None)]):
+    emu.install(ceremony.token_with([KS["ksk_current"]]))
+    tpath = os.path.join(tmpd, f"ta-{trial}.xml")
+    if where == "missing-directory":
+        tpath = os.path.join(tmpd, f"no-such-dir-{trial}", "ta.xml")
+    elif where == "path-is-a-directory":
+        os.mkdir(tpath)
+    if pre is not None:
+        with open(tpath, "wb") as f:
+            f.write(pre)
+    ns_ = _ap.Namespace(config=None, debug=False, trustanchor=tpath, id=f"anchor-{trial}", hsm=None)
+    import kskm.tools.trustanchor as _tam
+    if where == "write-fails-half-way":
+        _tam.open = _FailingWrite(tpath)
+    try:
+        with contextlib.redirect_stdout(io.StringIO()):
+            (r, lines) = with_logs(lambda: vlib.run_impl(_trustanchor, logging.getLogger("c17.ta"), ns_, _ta_cfg))
+    finally:
+        if where == "write-fails-half-way":
+            del _tam.open
+    count("trustanchor-" + where)
+    on_disk = open(tpath, "rb").read() if os.path.isfile(tpath) else None
+    wrote = [TA_WROTE.search(l) for l in lines if TA_WROTE.search(l)]
+    for m_ in wrote:
+        if on_disk is None or m_.group(2) != hashlib.sha256(on_disk).hexdigest() or ref_decode(m_.group(3).split()) != hashlib.sha256(on_disk).digest():
+            fail("trustanchor", f"{where}: the log says 'Wrote trust anchor to file ... SHA-256 {m_.group(2)[:16]}...' but "
+                 + ("there is no such file" if on_disk is None else f"the file holds {len(on_disk)} octets with SHA-256 {hashlib.sha256(on_disk).hexdigest()[:16]}..."),
+                 {"where": where, "path": tpath, "result": str(r)[:120]})
+    if where == "plain":
+        if r != ("ok", True) or len(wrote) != 1 or on_disk is None or b"<TrustAnchor" not in on_disk:
+            fail("trustanchor", f"plain export did not complete or logged {len(wrote)} digests: {r}")
+    elif r == ("ok", True):
+        fail("trustanchor", f"{where}: the exporter reports success although the trust-anchor file could not be written", {"where": where, "path": tpath})
+
 # ------------------------------------------------------------------ 4. stand-alone tool and helper functions print the same values
 def blob_with_digest(prefix):
     n = 0
